@@ -17,6 +17,13 @@ GT == {B("int"), B("string"), <<"named", "S@", <<>>>>, <<"slice", <<"named", "S@
 RecGroups == UNION {{[k |-> "recgroup", fields |-> [i \in 1..n |-> [n |-> FNames[i], t |-> ts[i]]]] :
                        ts \in {f \in [1..n -> GT] : \E i \in 1..n : f[i] \notin {B("int"), B("string")}}} : n \in 2..3}
 
+\* generic records: 1-3 fields, at least one mentions the type parameter
+GFT == {B("T"), B("int"), B("string"), <<"slice", B("T")>>, <<"tuple", <<B("T"), B("int")>>>>, <<"func", <<B("T")>>, B("T")>>,
+        <<"named", "dict.Dict", <<B("string"), B("T")>>>>}
+HasT(t) == t \notin {B("int"), B("string")}
+GRecords == UNION {{[k |-> "grecord", fields |-> [i \in 1..n |-> [n |-> FNames[i], t |-> ts[i]]]] :
+                      ts \in {f \in [1..n -> GFT] : \E i \in 1..n : HasT(f[i])}} : n \in 1..(IF Big THEN 3 ELSE 2)}
+
 PT == {B("int"), B("string"), <<"slice", B("int")>>, <<"tuple", <<B("int"), B("string")>>>>,
        <<"tuple", <<B("int"), <<"tuple", <<B("string"), B("bool")>>>>>>>>, <<"tuple", <<<<"tuple", <<B("int"), B("string")>>>>, B("bool")>>>>}
 CNames == <<"A", "B", "C">>
@@ -28,13 +35,18 @@ Unions == UNION {{[k |-> "union", gen |-> g, cases |-> [i \in 1..n |-> [n |-> CN
                     ps \in [1..3 -> IF Big THEN Payloads(g)
                                      ELSE {[has |-> FALSE, t |-> Unit], [has |-> TRUE, t |-> B("int")], [has |-> TRUE, t |-> IF g THEN B("T") ELSE B("string")]}]} : g \in BOOLEAN}
 
+\* unions with two type parameters: 1-3 cases over payloads mentioning A, B, both, neither or none
+P2 == {[has |-> FALSE, t |-> Unit]} \cup {[has |-> TRUE, t |-> t] : t \in {B("A"), B("B"), <<"tuple", <<B("A"), B("B")>>>>, <<"slice", B("B")>>, B("int"),
+                                                                              <<"func", <<B("A")>>, B("B")>>}}
+Unions2 == UNION {{[k |-> "union2", cases |-> [i \in 1..n |-> [n |-> CNames[i], has |-> ps[i].has, t |-> ps[i].t]]] : ps \in [1..n -> P2]} : n \in 1..(IF Big THEN 3 ELSE 2)}
+
 AT == {B("int"), B("string"), <<"slice", B("int")>>, <<"tuple", <<B("int"), B("string")>>>>, <<"func", <<B("int")>>, B("int")>>}
 Funcs == UNION {{[k |-> "func", params |-> ps, res |-> r] : ps \in [1..n -> AT], r \in {Unit, B("int"), B("string")}} : n \in 0..2}
          \cup {[k |-> "func", params |-> ps, res |-> r] : ps \in [1..3 -> IF Big THEN AT ELSE {B("int"), B("string")}], r \in IF Big THEN {Unit, B("int"), B("string")} ELSE {B("int")}}
 Vars == {[k |-> "var", t |-> t] : t \in {B("int"), B("string"), B("bool")}}
 
 LamVars == UNION {{[k |-> "lamvar", params |-> ps, res |-> r] : ps \in [1..n -> {B("int"), B("string")}], r \in {B("int"), B("string")}} : n \in 1..2}
-Decls == Records \cup RecGroups \cup Unions \cup Funcs \cup Vars \cup LamVars
+Decls == Records \cup GRecords \cup RecGroups \cup Unions \cup Unions2 \cup Funcs \cup Vars \cup LamVars
 Rows == {[k |-> d.k, fo |-> Fo(d), asserts |-> Surface(d)] : d \in Decls}
 ASSUME ndJsonSerialize(OutFile, SetToSeq(Rows))
 ASSUME PrintT(<<"CASES", Cardinality(Rows)>>)
